@@ -348,7 +348,9 @@ def _c16_extra(o, driver, rng):
 
 
 PROPERTIES["C16"] = {"run": _sched(_c16_monitor, async_req=True, extra=_c16_extra), "assumptions": SCHED_ASSUME + [
-    "the data path of an asynchronous get_data (cache lookup / direct query of the source) is not modelled, only its admission check",
+    "the data path of an asynchronous get_data is modelled as a function of the state (cache slice at the requester's last step, forwarded "
+    "remainder, dict.update merge) and compared per request (driver command aget); the forwarded query's reply is an input of the model "
+    "(the other simulator answers at once: no further await point is modelled inside the request)",
     "no ordinary connection feeds the same (source entity, destination entity, attribute) key as a set_data call"]}
 
 
